@@ -68,6 +68,11 @@ def run(run, harness, replay=None):
         r, cnt = tlc_cases("Gen_TokenEdits", "Gen_TokenEdits_%s.cfg" % tier, epath, workers=4, timeout=3000)
         run.add_tlc("Gen_TokenEdits", r)
         jobs.append(["edits", epath, os.path.join(VERIF, "corpus"), "45" if tier == "quick" else "150"])
+        # cut-and-continue space: every prefix of construct-covering programs followed by every short token string
+        cpath = os.path.join(run.work, "cuts.ndjson")
+        r, cnt = tlc_cases("Gen_TokenStrings", "Gen_TokenStrings_%s.cfg" % tier, cpath, workers=4, timeout=3000)
+        run.add_tlc("Gen_TokenStrings", r)
+        jobs.append(["cuts", cpath])
         jobs.append(["soup", "3000" if tier == "quick" else "100000"])
         # witnesses of repaired front-end defects stay in the input set
         jobs.append(["texts", os.path.join(VERIF, "regress", "c07_texts.ndjson")])
